@@ -268,6 +268,15 @@ static Output run_component(const World &w) {
             add_matrix(o, "block_matrix2", Bc);
             auto U = amgcl::adapter::unblock_matrix(Bc);
             add_matrix(o, "unblock_matrix2", *U);
+            // block-valued SpGEMM on both sides of the 16/17-thread switch; every third row of the left operand keeps a single block
+            // (the single-entry fast path of the row merge), the right operand is the block transpose so the factors do not commute
+            amgcl::backend::crs<BV> L1; L1.set_size(Bc.nrows, Bc.ncols, true);
+            for (size_t i = 0; i < Bc.nrows; ++i) { ptrdiff_t len = Bc.ptr[i+1] - Bc.ptr[i]; L1.ptr[i+1] = (i % 3 == 1 && len > 0) ? 1 : len; }
+            L1.set_nonzeros(L1.scan_row_sizes());
+            for (size_t i = 0; i < Bc.nrows; ++i) { ptrdiff_t len = L1.ptr[i+1] - L1.ptr[i]; for (ptrdiff_t j = 0; j < len; ++j) { L1.col[L1.ptr[i] + j] = Bc.col[Bc.ptr[i] + j]; L1.val[L1.ptr[i] + j] = Bc.val[Bc.ptr[i] + j]; } }
+            auto Tb = be::transpose(Bc);
+            auto Pb = be::product(L1, *Tb, true);
+            add_matrix(o, "block_product2", *Pb, SWITCHED);
         }
         {
             std::vector<ptrdiff_t> perm(n);
